@@ -52,6 +52,9 @@ OPTIONAL_COMBOS = [
     {'bins': F(lambda: [np.array([-0.5, 0.75]), np.array([0.0, 1.25])])},
     {'sigma_k': F(lambda: np.eye(5))},
     {'pattern_idx': F(lambda: np.array([0, 2, 3])), 'pattern_descriptor': 'index'},
+    {'pattern_idx': F(lambda: np.array([0, 2, 3])), 'pattern_descriptor': 'index', 'normalize': False},
+    {'pattern_idx': F(lambda: np.array([0, 2, 2, 3])), 'pattern_descriptor': 'index', 'ridge_weight': 0.5},
+    {'pattern_idx': F(lambda: np.array([10, 30, 30])), 'pattern_descriptor': 'grp', 'method': 'corr'},
     {'theta': F(lambda: np.array([0.5, 1.5, 1.0]))},
     {'fitter': F(lambda: __import__('rsatoolbox').model.fitter.fit_optimize)},
     {'weights': F(lambda: np.array([1.0, 2.0, 0.5, 1.5]))},
@@ -303,6 +306,9 @@ def sweep(ctx, variant=0, report=None, only=None):
                     if isinstance(optval, dict):
                         for k_, v_ in optval.items():
                             kwargs[k_] = v_.fn() if isinstance(v_, F) else v_
+                        if 'pattern_idx' in optval and hasattr(kwargs.get('data'), 'subsample_pattern'):
+                            # fitting on a resample: the data are the resampled data, the model is resampled by the fitter
+                            kwargs['data'] = kwargs['data'].subsample_pattern(kwargs['pattern_descriptor'], kwargs['pattern_idx'])
                     elif optval is not None:
                         kwargs[optval[0]] = optval[1]
                     for p in optional_heavy:
